@@ -4,7 +4,7 @@ import json, subprocess, sys
 ours = json.loads(subprocess.run(['git', 'show', ':2:known_findings.json'], capture_output=True, text=True).stdout)
 theirs = json.loads(subprocess.run(['git', 'show', ':3:known_findings.json'], capture_output=True, text=True).stdout)
 ids = {(f['property'], f['id']): i for i, f in enumerate(ours['findings'])}
-LEAD_OWNED = ('C08', 'C10', 'C17')     # entries the lead edits on main
+LEAD_OWNED = ('C08', 'C10', 'C17', 'C14')     # entries the lead edits on main
 for f in theirs['findings']:
     if (f['property'], f['id']) not in ids:
         ours['findings'].append(f)
